@@ -214,8 +214,8 @@ class DDPG(OffPolicyCont):
     def acting(self, run):
         return run.comps["policy"]
 
-    def log_keys(self):
-        return {"policy": "policy", "q": "q", "policy_target": "policy_target", "q_target": "q_target"}
+    epoch_map = {"policy_target": "policy_target", "q_target": "q_target"}
+    target_pairs = (("policy_target", "policy"), ("q_target", "q"))
 
 
 class TD3(DDPG):
@@ -276,6 +276,8 @@ class TD3LAP(TD3):
 class SAC(DDPG):
     name = "sac"
     result_step = "global_step"
+    deterministic_actor = False
+    target_pairs = (("q_target", "q"),)
 
     def cfg(self, rng, env_cfg, T=40):
         c = super().cfg(rng, env_cfg, T)
@@ -310,6 +312,10 @@ class SAC(DDPG):
         return dict(tau=c["tau"], policy_delay=c["policy_delay"], target_network_delay=c["target_network_delay"],
                     autotune=c["autotune"], entropy_control=run.entropy_control)
 
+    def opt_steps_per_update(self, run, name):
+        # documented: "compensate for delay by doing 'policy_delay' updates"
+        return run.plan["cfg"]["policy_delay"] if name in ("policy_opt", "alpha_opt") else 1
+
     def extra_comps(self, run):
         ec = run.entropy_control
         d = {"alpha": _Box(lambda: getattr(ec, "_alpha", None))}
@@ -343,6 +349,7 @@ class _Box:
 class DQNFamily(Adapter):
     discrete = True
     marker_keys = ("q loss",)
+    target_pairs = (("q_target", "q"),)
 
     def cfg(self, rng, env_cfg, T=40):
         c = _common_cfg(rng, T)
@@ -590,7 +597,8 @@ class TrainRun:
 
             jax.effects_barrier()
             executed = self.env.n_steps - self.steps_at_call
-            rec = {"link": link, "start": gs, "executed": executed, "error": repr(err) if err else None,
+            st_all = self.env.steps()
+            rec = {"link": link, "start": gs, "executed": executed, "last_done": bool(executed and (st_all[-1]["term"] or st_all[-1]["trunc"])), "error": repr(err) if err else None,
                    "aborted": self.aborted, "episodes": sum(1 for s in self.env.steps() if s["term"] or s["trunc"]) - episodes_before}
             if result is not None:
                 out = self.adapter.outcome(self, result)
@@ -645,3 +653,6 @@ class TrainRun:
 
 def execute(plan):
     return TrainRun(plan).run()
+
+
+from . import adapters2  # noqa: E402,F401  (registers TD7, MR.Q, PETS)
